@@ -48,6 +48,9 @@ func c12Case(r *core.Run, idx int, rng *rand.Rand) {
 	} else {
 		e = env.Static(o)
 	}
+	if idx%5 == 2 {
+		withUnaskedNames(e, r)
+	}
 	attrLoc, ssoLoc, entity := idpAttr, idpSSO, idpEntityID
 	if extAttr != "" {
 		attrLoc = extAttr
